@@ -36,11 +36,14 @@ class _Odd:
 # what is stored under value id v: every third value is FALSY (empty set / falsy object / empty list, dict, bytearray): a legal
 # MatchSet can be empty, and a lookup must return whatever was stored
 VALUES = {}
+COPY_SAFE = [False]        # cases with deep copies / pickles identify values by content, so they only use values unlike any other
 
 
 def val(v):
     if v not in VALUES:
-        VALUES[v] = [set, _Odd, list, dict, bytearray][(v // 3) % 5]() if v % 3 == 0 else ["v", v]
+        # v % 3 == 0: a falsy object; v % 3 == 1: a value EQUAL to every other value of this kind but a distinct object (a store
+        # must store what it is given, identity included); otherwise a value unlike any other
+        VALUES[v] = [set, _Odd, list, dict, bytearray][(v // 3) % 5]() if v % 3 == 0 else (["same"] if v % 3 == 1 and not COPY_SAFE[0] else ["v", v])
     return VALUES[v]
 
 
@@ -190,6 +193,22 @@ def main():
         ops = [(0, ("s", k, 5000 + k)) for k in range(1, lim + 1)]            # fill up to the limit
         ops += gen_random(rng, rng.randint(60, 160), 1, nkeys=lim + 40, limits=(lim, lim - 1, lim + 7, 64, 32))
         cases.append((None, [lim], ops, "large-limit"))
+    # long runs of lookups with nothing else in between (no store, no len(), no iteration): the recency order after 64, 100, 300
+    # hits is still the order of last use
+    for _ in range(max(6, a.nrandom // 30)):
+        lim = rng.choice([4, 5, 6])
+        keys = list(range(1, lim + 1))
+        ops = [(0, ("s", k, 7000 + 3 * k + 2)) for k in keys]
+        ops.append((0, ("g", keys[0])))
+        others = keys[2:]          # keys[1] is never looked up: it, not keys[0], is the least recently used entry at the overflow
+        for i in range(rng.choice([63, 64, 65, 70, 130, 300])):
+            ops.append((0, ("g", others[i % len(others)])))
+        if rng.random() < 0.5:
+            ops.append((0, ("g", keys[0])))
+        ops.append((0, ("s", lim + 1, 7999)))          # overflow: the least recently USED entry goes
+        ops.append((0, ("g", keys[0])))
+        ops.append((0, ("g", others[0])))
+        cases.append((None, [lim], ops, "hit-run"))
     # caches that were not made by the constructor
     copies = {}
     for _ in range(max(10, a.nrandom // 10)):
@@ -207,7 +226,8 @@ def main():
     lines, expect = [], []
     stats = {"ops": {}, "keyerrors": 0, "evictions_seen": 0, "cases": len(cases), "steps": 0, "large_limit_cases": 0, "copied_cache_cases": 0}
     for ci, (dflt, args, ops, kind) in enumerate(cases):
-        LAZY[0] = kind != "exhaustive" and ci % 2 == 1
+        LAZY[0] = kind in ("hit-run",) or (kind != "exhaustive" and ci % 2 == 1)
+        COPY_SAFE[0] = kind == "copied-cache"
         stats["lazy_observation_cases"] = stats.get("lazy_observation_cases", 0) + LAZY[0]
         impl = run_impl(dflt, args, ops)
         stats["large_limit_cases"] += kind == "large-limit"
